@@ -10,6 +10,8 @@ def main(tier):
     runner.run(rep, 'Crystal.__init__::reduction-contract', R.w_reduce, [(i, tier, SEED) for i in range(n)], 'onsager/crystal.py::Crystal.reduce')
     orders = [(3, 3), (3, 2), (4, 3)] if tier == 'quick' else [(3, 3), (3, 2), (4, 3), (4, 2), (5, 3), (5, 2), (6, 3)]
     runner.run(rep, 'Crystal.__init__::reduction-contract', R.c19_orderings, [(n_, d, tier, SEED) for n_, d in orders], 'onsager/crystal.py::Crystal.reduce')
+    angles = [0., 0.3, 1.1] if tier == 'quick' else [0., 0.3, 1.1, 0.7, 2.0, 2.9, 0.05, 1.5707963]
+    runner.run(rep, 'Crystal.__init__::reduction-contract', R.c19_hexagonal, [(a, tier, SEED) for a in angles], 'onsager/crystal.py::Crystal.minlattice')
     from vf import extract
     for q in ('Crystal.reduce', 'Crystal.minlattice', 'Crystal.remapbasis', 'Crystal.center'):
         f = extract.get('onsager/crystal.py', q); rep.under_contract('onsager/crystal.py::' + q, 'onsager/crystal.py', f.l0, f.l1)
